@@ -282,7 +282,9 @@ class Explorer(object):
                 self.assign(t, x, env)
         elif isinstance(target, ast.Attribute):
             obj = self.expr(target.value, env)
-            if isinstance(obj, Abs):
+            if isinstance(obj, dict) and getattr(self.port, 'name', 'py') == 'js':
+                obj[target.attr] = v
+            elif isinstance(obj, Abs):
                 self.run.state[(obj.uid, target.attr)] = v
             else:
                 raise Undecided('attribute store on {!r}'.format(obj), target)
@@ -438,6 +440,10 @@ class Explorer(object):
                 return v[1] if isinstance(v, tuple) and v and v[0] == 'nomemo' else v
         if name == 'length' and isinstance(obj, (list, tuple, str)):
             return len(obj)
+        if isinstance(obj, dict) and getattr(self.port, 'name', 'py') == 'js' and not hasattr(obj, 'default_factory'):
+            # a JS object literal: property read (a missing property is undefined)
+            if name in obj or name not in ('get', 'set', 'has', 'keys', 'values', 'entries', 'hasOwnProperty', 'delete', 'size'):
+                return obj.get(name)
         if isinstance(obj, (list, tuple, str, dict)) or isinstance(obj, Abs):
             return ('method', obj, name)
         if obj is None:
@@ -632,6 +638,9 @@ class Explorer(object):
                 return None
             if m == 'pop' and not args and recv:
                 return recv.pop()
+            if m == 'reverse' and not args:
+                recv.reverse()
+                return recv if getattr(self.port, 'name', 'py') == 'js' else None
             if m == 'shift' and not args:
                 return recv.pop(0) if recv else None
             if m == 'unshift' and len(args) == 1:
